@@ -372,7 +372,7 @@ C13RespCauses(n, r) ==
                                 \cup (IF p.code_challenge # <<"S256(" \o a.verifier \o ")">> THEN {"challenge-not-S256-of-stored-verifier"} ELSE {})
                                 \cup (IF a.url # Req(n).url THEN {"stored-url-not-the-requested-one"} ELSE {}))
                       ELSE {})
-                \cup (IF \E k \in DOMAIN c.ownQuery : k \notin DOMAIN p \/ p[k] # c.ownQuery[k] THEN {"own-query-not-retained"} ELSE {})
+                \cup (IF ~r.loc.ownRetained THEN {"own-query-not-retained"} ELSE {})      \* (judged by the driver on the raw components)
                 \cup (IF r.loc.fragment THEN {"fragment"} ELSE {})
         ELSE {})
   \cup (IF Outcome(r) = "app"
